@@ -16,7 +16,7 @@ def rand_precond(rnd, *, kind=None, allow_iterative=True, allow_ignored=True, or
         if r < 0.6 or not allow_iterative:
             pc["solver"] = {"type": "eigen", "enhance_stability": rnd.random() < 0.3, "exponent_multiplier": rnd.choice([1.0, 1.0, 1.82, 0.5])}
         elif r < 0.8:
-            pc["solver"] = {"type": "newton", "max_iterations": 100, "tolerance": rnd.choice([1e-6, 1e-8])}
+            pc["solver"] = {"type": "newton", "max_iterations": 100, "tolerance": rnd.choice([1e-6, 1e-8])}  # tolerance adapted to the factor dtype in rand_config
         else:
             pc["solver"] = {"type": "ho", "order": rnd.choice([2, 3, 4]), "rel_epsilon": 0.0, "max_iterations": 100, "tolerance": rnd.choice([1e-8, 1e-6])}
     else:
@@ -63,6 +63,15 @@ def rand_config(rnd, *, grad_scale=1.0, precond_kind=None, grafting_kind=None, a
     if iterative and pc["solver"]["type"] == "newton" and pc["solver"].get("exponent_multiplier", 1.0) != 1.0:
         pass
     pd, fd = dtype_pair or rnd.choice([("float32", "float32"), ("float32", "float32"), ("float64", "float64"), ("float32", "float64"), ("float64", "float32"), ("bfloat16", "float32")])
+    if pd == "bfloat16" and iterative:
+        # Gram products of bfloat16 gradients are indefinite at the 2^-8 level; the iterative solvers have no spectrum shift
+        # and would need epsilon above that level: outside the conditioning classes generated here
+        pd = "float32"
+    if pc["solver"]["type"] == "newton" and fd == "float32":
+        pc["solver"]["tolerance"] = rnd.choice([1e-4, 3e-5])  # reachable in float32: the routine must report convergence
+    wd = rnd.choice([0.0, 0.0, 0.03, 0.011])
+    if iterative:
+        wd = 0.0  # keeps the factor scale tied to the gradient scale (conditioning class) whatever the parameters do
     cfg = {
         "lr": rnd.choice([0.003, 0.013, 0.1, 1.0, 0.0]) if rnd.random() < 0.95 else 0.0,
         "betas": [beta1, beta2],
@@ -70,7 +79,7 @@ def rand_config(rnd, *, grad_scale=1.0, precond_kind=None, grafting_kind=None, a
         "epsilon": epsilon,
         "momentum": momentum,
         "dampening": rnd.choice([0.0, 0.2, 0.3]),
-        "weight_decay": rnd.choice([0.0, 0.0, 0.03, 0.011]),
+        "weight_decay": wd,
         "max_preconditioner_dim": rnd.choice(list(max_dim_choices)),
         "precondition_frequency": freq,
         "start_preconditioning_step": start,
@@ -139,6 +148,8 @@ def rand_schedule(rnd, T, n_groups, cfg):
     for _ in range(rnd.choice([0, 0, 1, 2, 4])):
         key = rnd.choice(["lr", "lr", "weight_decay", "momentum"])
         if key == "momentum" and cfg["momentum"] == 0.0:
+            continue
+        if key == "weight_decay" and cfg["precond"]["solver"]["type"] in ("newton", "ho"):
             continue
         val = {"lr": rnd.choice([0.002, 0.05, 0.5, 0.0]), "weight_decay": rnd.choice([0.0, 0.02, 0.007]), "momentum": rnd.choice([0.4, 0.7])}[key]
         edits.append([rnd.randrange(1, T), rnd.randrange(n_groups), key, val])
